@@ -3183,9 +3183,9 @@ namespace awkward {
 
               count_instructions_++;
               if (single_step) {
-                if (is_segment_done()) {
-                  bytecodes_pointer_pop();
-                }
+                // leave the word, as 'goto after_end_of_segment' does when not stepping
+                bytecodes_pointer_pop();
+                leave_ended_segments();
                 return;
               }
 
